@@ -11,6 +11,8 @@ import (
 	"github.com/antlr/antlr4/runtime/Go/antlr/v4"
 	parser "github.com/modernizing/coca/languages/java"
 	"pgregory.net/rapid"
+
+	"verif/internal/jgram"
 )
 
 var rewriteOps = []string{"reindent", "comments", "rename", "blanklines", "crlf",
@@ -53,7 +55,7 @@ var insertComments = []string{
 
 func init() {
 	// the boundary shapes of the unit generator (text lengths around the markers, assignee brackets, nesting)
-	insertComments = append(insertComments, commentShapes[20:]...)
+	insertComments = append(insertComments, jgram.CommentShapes()[20:]...)
 }
 
 var renameStyles = []func(old string, k int) string{
